@@ -71,8 +71,10 @@ void SelectLoop::runLoop(Mode mode)
                 bool is_except   = FD_ISSET(fd, &except_set);
 
                 if (is_readable || is_writable || is_except) {
-                    auto *data = fd_data_map_.at(fd);
-                    SelectFdEvent::OnEventCallback(is_readable, is_writable, is_except, data);
+                    //! 前面的回调可能已将该fd上的事件全部销毁了
+                    auto iter = fd_data_map_.find(fd);
+                    if (iter != fd_data_map_.end())
+                        SelectFdEvent::OnEventCallback(is_readable, is_writable, is_except, iter->second);
                 }
             }
         } else if (select_ret == -1) {
@@ -187,7 +189,9 @@ void SelectLoop::unrefFdSharedData(int fd)
         --fd_shared_data->ref;
         if (fd_shared_data->ref == 0) {
             fd_data_map_.erase(fd);
-            fd_shared_data_pool_.free(fd_shared_data);
+            //! 本轮事件分发可能仍引用着该对象（如正在遍历它的 fd_events，或 epoll_wait() 已返回了指向它的就绪项），
+            //! 所以要延后释放，期间它的 fd_events 为空，不会再产生回调
+            run([this, fd_shared_data] { fd_shared_data_pool_.free(fd_shared_data); }, __func__);
         }
     }
 }
